@@ -10,6 +10,7 @@ import fsnap
 import gem
 import harness
 import mutate
+import refmanifest as R
 import refscan
 import treegen
 import refverify
@@ -47,6 +48,70 @@ ASSUMPTIONS = [
 
 KNOWN_SAME_DIR = 'same-dir-manifest-stale-ref'
 KNOWN_DEDUP = 'dedup-removes-kept-entry'
+KNOWN_ROOT_VARIANT = 'root-level-manifest-variant-not-listed'
+KNOWN_DUAL = 'manifest-also-listed-as-data'
+ROOT_VARIANTS = ('Manifest.gz', 'Manifest.bz2', 'Manifest.lzma',
+                 'Manifest.xz')
+
+
+def root_variant_strays(root):
+    """Files in the top directory named like a compressed variant of the
+    top-level Manifest (input class of a recorded finding)."""
+    return {n for n in ROOT_VARIANTS
+            if os.path.isfile(os.path.join(root, n))}
+
+
+def dual_listed(root):
+    """Manifest files that are listed with a MANIFEST entry and also with a
+    DATA-like entry (input class of a recorded finding)."""
+    man, dat = set(), set()
+    for dirpath, dirnames, filenames in os.walk(root):
+        for fn in filenames:
+            if not (fn.startswith('Manifest') or 'manifest' in fn):
+                continue
+            rel = os.path.relpath(os.path.join(dirpath, fn), root)
+            try:
+                entries = R.parse_strict(R.read_manifest_file(
+                    os.path.join(root, rel)))
+            except Exception:
+                continue
+            d = os.path.dirname(rel)
+            for e in entries:
+                if e.tag == 'MANIFEST':
+                    man.add(refscan.join(d, e.path))
+                elif e.tag in ('DATA', 'MISC', 'EBUILD', 'AUX'):
+                    dat.add(refscan.join(d, e.path))
+    out = {}
+    for d in man & dat:
+        listed = set()
+        try:
+            for e in R.parse_strict(R.read_manifest_file(
+                    os.path.join(root, d))):
+                if e.tag not in ('DIST', 'TIMESTAMP'):
+                    # (IGNOREd paths too: they lose their IGNORE when the
+                    # Manifest drops out of use)
+                    listed.add(refscan.join(refscan.dirname(d),
+                                            e.path).rstrip('/'))
+        except Exception:
+            pass
+        out[d] = listed
+    return out
+
+
+def explained_by_known(path, variants, dual):
+    """Which recorded finding (if any) accounts for a problem at @path."""
+    if path in variants:
+        return KNOWN_ROOT_VARIANT
+    for d, listed in dual.items():
+        base = R.strip_compression(d)
+        # the Manifest file itself (under any compression suffix), the files
+        # it lists, and whatever lies in its own (non-top) directory
+        if R.strip_compression(path) == base or any(
+                refverify.comp_prefix(x, path) for x in listed) or (
+                refscan.dirname(d) != '' and refverify.comp_prefix(
+                    refscan.dirname(d), path)):
+            return KNOWN_DUAL
+    return None
 
 
 def dedup_trigger_paths(root, with_manifests=False):
@@ -98,7 +163,7 @@ def dedup_trigger_paths(root, with_manifests=False):
 
 @st.composite
 def case(draw):
-    state = draw(updgen.prior_state())
+    state = draw(updgen.prior_state(dual_listed=True, root_junk=True))
     rounds = []
     for i in range(draw(st.integers(1, 3))):
         o = draw(updgen.update_opts(state))
@@ -108,7 +173,11 @@ def case(draw):
         # directory is what gets updated
         newdirs = [op['p'] for op in ed
                    if op['op'] == 'retype' and op.get('to') == 'dir'
-                   and not treegen.is_hidden(op['p'])]
+                   and not treegen.is_hidden(op['p'])
+                   # (updating a directory that an IGNORE covers has no
+                   # defined result, see the recorded C18 finding)
+                   and not any(refverify.comp_prefix(i.rstrip('/'), op['p'])
+                               for i in state.get('ignores', []))]
         if newdirs and state['mode'] != 'none' and draw(st.booleans()):
             o['target'] = draw(st.sampled_from(newdirs))
             o.pop('target_slash', None)
@@ -131,13 +200,26 @@ def has_same_dir_reference(scan):
 
 
 def check_round(root, o, what, classes, trigger=frozenset(),
-                rewritten=None):
+                rewritten=None, variants=frozenset(), dual=None):
     """Oracle after a completed update+save."""
+    dual = dual or {}
     sc = refscan.scan(root, 'Manifest', o['target'], o['hashes'],
                       rewritten=rewritten)
     if sc.problems:
         kinds = sorted({k for k, p, t in sc.problems})
         sig = 'scan:' + '+'.join(kinds)
+        # recorded findings, each with its input-class predicate
+        why = []
+        for k, p, t in sc.problems:
+            if k in ('stale-entry', 'wrong-hash-set') and p in trigger:
+                why.append(KNOWN_DEDUP)
+            else:
+                why.append(explained_by_known(p, variants, dual))
+        if why and all(why):
+            sig = sorted(set(why))[0] if len(set(why)) > 1 else why[0]
+            return violation(
+                f'{what}: Manifests on disk do not describe the tree: '
+                f'{sc.problems[:6]!r}', sig=sig, classes=classes)
         if all(k in ('stale-entry', 'wrong-hash-set') and p in trigger
                for k, p, t in sc.problems):
             sig = KNOWN_DEDUP
@@ -166,6 +248,12 @@ def check_round(root, o, what, classes, trigger=frozenset(),
             # the stale duplicate left behind by the known defect (here in a
             # place the scan does not look at, e.g. beneath "IGNORE dir/")
             sig = KNOWN_DEDUP
+        elif oc.kind == 'mismatch' and explained_by_known(
+                os.path.normpath(oc.path), variants, dual):
+            sig = explained_by_known(os.path.normpath(oc.path), variants,
+                                     dual)
+        elif oc.kind in ('incompatible', 'gemato') and dual:
+            sig = KNOWN_DUAL
         return violation(
             f'{what}: fresh verification of {o["target"]!r} fails: '
             f'{oc.describe()}', sig=sig, classes=classes)
@@ -179,6 +267,7 @@ def run_case(desc):
         updgen.build_prior(state, root)
         classes = list(state['tags'])
         completed = 0
+        dual_seen = {}
         for i, rnd in enumerate(desc['rounds']):
             mutate.apply_ops(root, rnd['edits'])
             o = rnd['opts']
@@ -187,6 +276,15 @@ def run_case(desc):
                 break
             create = (state['mode'] == 'none' and i == 0)
             trigger = dedup_trigger_paths(root)
+            variants = root_variant_strays(root)
+            # (what an earlier round made of such a pair stays with us)
+            for dk, dv in dual_listed(root).items():
+                dual_seen.setdefault(dk, set()).update(dv)
+            dual = dict(dual_seen)
+            if variants:
+                classes.append('root-level-manifest-variant-present')
+            if dual:
+                classes.append('manifest-also-listed-as-data-present')
             snap0 = fsnap.snapshot(root)
             if desc.get('scandir'):
                 with shim.ScandirOrder(desc['scandir']):
@@ -211,7 +309,8 @@ def run_case(desc):
                 classes.append('compress-option')
             changed = set(fsnap.changed_paths(fsnap.diff(
                 snap0, fsnap.snapshot(root))))
-            v = check_round(root, o, what, classes, trigger, changed)
+            v = check_round(root, o, what, classes, trigger, changed,
+                            variants, dual)
             if v is not None:
                 return v
         interesting = any(t in classes for t in (
